@@ -43,8 +43,21 @@ def gen_case(rng, car):
         kind = rng.choice(["int", "float", "npf64", "npi64", "t0", "t1"])
         s = rng.choice([2, 4, -2, 1, 8]) if kind in ("int", "npi64") else rng.choice([2, 4, -2, 0.5, -0.25])
         return Op("ODiv", [x, Scal(kind, s, coq_value=1 / Fraction(s))]), "div", coqrun.QC
-    if r < 0.93:
+    if r < 0.90:
         return Op(rng.choice(["ONeg", "OPos"]), [gen_tt(rng, cplx=cplx)]), "unary", None
+    if r < 0.95:      # an operand is used again after an operation on it: (x op s) op2 x, (x op y) op2 x  (the SAME object)
+        x = gen_tt(rng, cplx=False, mult=rng.choice([2, 4]))
+        k = rng.random()
+        if k < 0.4:
+            s = rng.choice([2, 4, -2])
+            inner, car2 = Op("ODiv", [x, Scal(rng.choice(["int", "float", "t0"]), s, coq_value=1 / Fraction(s))]), coqrun.QC
+        elif k < 0.7:
+            inner, car2 = Op(rng.choice(["OMul", "ORMul", "OAdd", "OSub", "ORSub"]), [x, Scal(rng.choice(["int", "float"]), rng.choice([0, 2, -3]))]), None
+        else:
+            y = gen_tt(rng, cplx=False, N=[c.shape[1] for c in x.cores])
+            inner, car2 = Op(rng.choice(["OAdd", "OSub", "OMul"]), [x, y]), None
+        args = [inner, x] if rng.random() < 0.5 else [x, inner]
+        return Op(rng.choice(["OAdd", "OSub", "OMul"]), args), "reuse", car2
     x = gen_tt(rng, d=rng.choice([1, 2, 3]), cplx=cplx)
     if rng.random() < 0.2:
         return Op("OKron", [x, NoneE()]), "kron", None
